@@ -146,7 +146,9 @@ def inline_helpers(fn, find_method, max_body=12, only=None):
         return None
 
     def bind(h, call):
-        ps = [a.arg for a in h.args.args][1:]
+        ps = [a.arg for a in h.args.args]
+        if not any(isinstance(d, ast.Name) and d.id == "staticmethod" for d in h.decorator_list):
+            ps = ps[1:]
         m = {}
         for i, a in enumerate(call.args):
             if i < len(ps):
@@ -190,6 +192,15 @@ def inline_helpers(fn, find_method, max_body=12, only=None):
     for n in ast.walk(fn):
         for ch in ast.iter_child_nodes(n):
             ch._parent = n
+    return fn
+
+
+def inlined_view(fn, find_method, rounds=2, max_body=40, only=None):
+    """fn with the same-class steps it calls as statements (`self.step(args)`, helpers that return nothing) spliced in,
+    parameters replaced by the arguments — a method split into steps reads as the method it was. `only`: predicate on
+    AST nodes; a helper is spliced in only if it contains such a node (what the rule is looking for)."""
+    for _ in range(rounds):
+        fn = inline_helpers(fn, find_method, max_body=max_body, only=only)
     return fn
 
 
